@@ -430,6 +430,10 @@ def judgeIts (prop : String) (st : DState) (fields : List String) (impl : Option
   | ["tx", src, dst, func, _egld, _esdt, args] =>
     match ofHex src, ofHex dst, parseArgs args with
     | some src, some dst, some args =>
+      -- C04: tokens are handed out by a manager only on behalf of the service (`giveToken` restricted to it)
+      if prop == "C04" && w.kind dst == some .tokenManager && (func == "giveToken" || func == "mint") then
+        (if implOk impl && !modelOk then "VIOLATION:tokens-handed-out-by-a-manager-outside-the-service" else "ok")
+      else
       -- C18: the issuing endpoint of a token manager, called directly (not through the service)
       if prop == "C18" && w.kind dst == some .tokenManager && func == "deployInterchainToken" then
         (if implOk impl && !modelOk then "VIOLATION:token-issuance-accepted-outside-rules"
@@ -511,6 +515,11 @@ def judgeIts (prop : String) (st : DState) (fields : List String) (impl : Option
       | some p =>
         match p.kind, p.result with
         | .itsExecute _ _ _ _ _ _ _ amount, some (okFlag, _) =>
+          if prop == "C20" then
+            -- a pause never reaches into a delivery that is already under way: its callback completes (and after
+            -- unpausing everything is as before)
+            (if !implOk impl && modelOk then "VIOLATION:transfer-with-data-callback-refused-by-a-pause-in-the-window" else "ok")
+          else
           if prop != "C08" then "ok" else
           if !implOk impl then
             (if !modelOk && !okFlag && amount > 0 then
